@@ -1808,13 +1808,15 @@ impl IdmServerProxyWriteTransaction<'_> {
     fn check_password_quality(
         &mut self,
         cleartext: &str,
+        policy_min_length: u32,
         related_inputs: &[&str],
     ) -> Result<(), OperationError> {
-        // password strength and badlisting is always global, rather than per-pw-policy.
-        // pw-policy as check on the account is about requirements for mfa for example.
-        if cleartext.len() < PW_SFA_MIN_LENGTH_NIST as usize {
+        // A unix password is a single factor: never shorter than the single factor minimum, and
+        // never shorter than the minimum the account's policy demands.
+        let min_length = policy_min_length.max(PW_SFA_MIN_LENGTH_NIST);
+        if crate::utils::utf8_len(cleartext) < min_length as usize {
             return Err(OperationError::PasswordQuality(vec![
-                PasswordFeedback::TooShort(PW_SFA_MIN_LENGTH_NIST),
+                PasswordFeedback::TooShort(min_length),
             ]));
         } else if cleartext.len() > PW_MAX_LENGTH_NIST as usize {
             return Err(OperationError::PasswordQuality(vec![
@@ -1952,12 +1954,13 @@ impl IdmServerProxyWriteTransaction<'_> {
             .internal_search_uuid(pce.target)
             .and_then(|account_entry| {
                 // Assert the account is unix and valid.
-                Account::try_from_entry_rw(&account_entry, &mut self.qs_write)
+                Account::try_from_entry_with_policy(account_entry.as_ref(), &mut self.qs_write)
             })
             .map_err(|e| {
                 admin_error!("Failed to start set unix account password {:?}", e);
                 e
             })?;
+        let (account, account_policy) = account;
 
         // Account is not a unix account
         if account.unix_extn().is_none() {
@@ -2010,7 +2013,11 @@ impl IdmServerProxyWriteTransaction<'_> {
         // If we got here, then pre-apply succeeded, and that means access control
         // passed. Now we can do the extra checks.
 
-        self.check_password_quality(pce.cleartext.as_str(), account.related_inputs().as_slice())
+        self.check_password_quality(
+            pce.cleartext.as_str(),
+            account_policy.pw_min_length(),
+            account.related_inputs().as_slice(),
+        )
             .map_err(|e| {
                 admin_error!(?e, "Failed to checked password quality");
                 e
